@@ -10,7 +10,9 @@ AllBytes == { << [t |-> 8, v |-> <<b>>] >> : b \in 0..255 }
 \* values longer than a machine word, differing early, late, or only in length
 LongVals == { <<1,0,0,0,0,0,0,0,0,0>>, <<2,0,0,0,0,0,0,0,0,0>>, <<1,0,0,0,0,0,0,0,0,1>>, <<0,9,0,0,0,0,0,0,0,0>>, <<1,0,0,0,0,0,0,0,0>>, <<255,0,0,0,0,0,0,0,0,0,0,0>> }
 Longs == { << [t |-> t, v |-> v] >> : t \in {8, 32}, v \in LongVals } \cup { << [t |-> 8, v |-> <<65>>], [t |-> 8, v |-> v] >> : v \in LongVals }
-Names == {<<>>} \cup { <<c>> : c \in Comps } \cup AllBytes \cup Longs
+\* numeric-convention components at the top of the 64-bit range (shortest form: 8 bytes)
+BigNums == { << [t |-> t, v |-> v] >> : t \in {50, 54}, v \in { <<128,0,0,0,0,0,0,0>>, <<127,255,255,255,255,255,255,255>>, <<255,255,255,255,255,255,255,255>>, <<1,0,0,0,0>> } }
+Names == {<<>>} \cup { <<c>> : c \in Comps } \cup AllBytes \cup Longs \cup BigNums
          \cup { <<c, d>> : c \in { x \in Comps : x.t \in {8, 50} /\ Len(x.v) <= 1 }, d \in { x \in Comps : x.t \in {1, 8, 54} } }
          \cup { <<c, c, d>> : c \in { x \in Comps : x.t = 8 /\ Len(x.v) = 1 }, d \in { x \in Comps : x.t \in {8, 32} /\ Len(x.v) <= 1 } }
 \* parser inputs: every string of up to 4 tokens over separators, escapes and type markers
